@@ -32,6 +32,7 @@ ASSUMPTIONS = [
 ]
 
 FEAT = gen.feat(
+    p_self=0.1,
     ann={"c": 5, "o": 2.5, "u": 1.2, "x": 0.7, "h": 2.5, "ph": 1.5, "ss": 0.5, "d": 0.5, "i": 0.3},
     bodies={"leaf": 3, "next": 4, "rec": 2, "fnext": 0.6, "next2": 0.5, "next_other": 0.6,
             "rec_next": 0.8},
